@@ -16,7 +16,10 @@ EXTRA_SCHEMA = {"g": "guid", "dd": "date"}
 INT_LITS = ["-3", "-1", "0", "1", "2", "7"]
 FLOAT_LITS = ["0.5", "-1.5", "2.0", "2.5", "7.25", "-0.5"]
 STR_LITS = ["", "a", "ab", "b%", "a_c", "o'x", "x\\y", " pad ", "abcabc", "%", "_", "bc",
-            "c", "--", "a;b"]
+            "c", "--", "a;b",
+            # shapes that an (unwanted) input transformation would alter: percent-encoding,
+            # plus-as-space, backslash escapes, non-NFC text, entities
+            "a%41b", "a+b", "a\\nb", "e\u0301", "&amp;"]
 DT_LITS = ["2020-01-01T00:00:00", "2019-12-31T23:59:59", "2021-06-15T12:30:45",
            "2000-02-29T06:07:08"]
 DATE_LITS = ["2020-01-01", "2019-12-31", "2021-06-15", "2000-02-29"]
@@ -86,6 +89,7 @@ class Profile:
         self.neg = True                        # unary minus on non-literals
         self.neg_literal = True                # "- 1" (UnaryOp on a literal)
         self.bare_bool_column = True           # `flag` used as a predicate by itself
+        self.bare_bool_literal = False         # `true` / `false` used as a predicate by itself
         self.bare_bool_func = True             # contains(..) used bare
         self.bool_func_cmp = True              # contains(..) eq true
         self.bool_cmp = True                   # flag eq true / contains(..) eq flag
@@ -248,6 +252,8 @@ def gen_bool_operand(rng, p, depth):
 
 def gen_atom(rng, p, depth, allow_bare_col=True):
     """A boolean atom: comparison, in-list, null test, boolean function, bare bool column."""
+    if p.bare_bool_literal and allow_bare_col and rng.random() < 0.04:
+        return T.lit("bool", rng.choice(["true", "false"]))
     for _ in range(20):
         r = rng.random()
         if r < 0.50:
@@ -348,7 +354,9 @@ def conforms(t, p):
                 return False
             return True
         if k == "lit":
-            return not bool_position or n[1] == "bool"
+            if bool_position:
+                return n[1] == "bool" and p.bare_bool_literal
+            return True
         if k == "list":
             return all(walk(x, False) for x in n[1])
         if k == "bool":
